@@ -15,7 +15,7 @@ LEVEL = {
  "C06": "The registration response carries the setup's public key, login masks the setup's key (not a stored copy), the client returns the unmasked key and the envelope tag binds it (open_raw exact).",
  "C08": "The fake record (fresh masking key from the RNG, zero envelope, fake key), the identical evaluation function and response assembly for None and Some, the client's error mapping, and exactness of the server's final check.",
  "C09": "Step and unit equivalence to the reference model typed in from RFC 9807 / RFC 9497 over the model suite (labels, layouts, key schedule, pad, envelope, 3DH), plus Curve25519 DeriveDiffieHellmanKeyPair == RFC 7748 clamp for all seeds.",
- "C10": "For all 11 decoders of the model suite: Ok <=> exact length and all fields valid, and then re-encoding gives the input (lengths L-1..L+1 quick, 0..L+64 thorough); byte-level decoders of the real groups (Curve25519 all inputs, ristretto255 / P-256 scalars, P-256 tag bytes).",
+ "C10": "For all 11 decoders of the model suite: Ok <=> exact length and all fields valid, and then re-encoding gives the input (lengths 0, L-1, L, L+1 quick; thorough: every length 0..L+64 for the small decoders, a window L-8..L+8 plus far lengths for the four large ones); byte-level decoders of the real groups (Curve25519 all inputs, ristretto255 / P-256 scalars, P-256 tag bytes).",
  "C11": "Every group-element / scalar field of every decoder is checked against the group's validity predicate (model suite), and the real groups' decoders reject zero / out-of-range scalars, unknown SEC1 tags, identity/uncompressed/compact tags and small-order Curve25519 points for all inputs.",
  "C12": "The listed harnesses are run with Kani's Rust panic checks and CBMC's memory-safety checks and unwinding assertions on: no reachable panic, overflow, out-of-bounds access or non-terminating loop within the bounds; over-long inputs refused for every usize length.",
  "C13": "decode(encode(x)) and encode(decode(b)) identities for all five persisted types for every byte string, a reloaded fresh setup, and every step harness starting from deserialized bytes.",
